@@ -337,7 +337,23 @@ get_async = Contract(
     note="dropped: the rerun_exceptions_locally branch (precondition), the Windows queue_get polling variant",
 )
 
-CONTRACTS = [release_data, finish_task, submit, fire_tasks, no_deadlock, start_state, queue_result, nested_get, get_async]
+execute_task = Contract(
+    MODULE, "execute_task",
+    params={"key": Key, "task_info": Blob, "dumps": Fn, "loads": Fn, "get_id": Fn, "pack_exception": Fn},
+    locals={"failed": T.Bool},
+    returns=T.Tup(Key, Blob, T.Bool),
+    requires=[],
+    ensures=[
+        ("C04-reports-its-key", "result[0] == key"),
+        ("C04-failure-flag-iff-the-task-raised", "result[2] == task_raised"),
+    ],
+    raises=[("BaseException", "True", "only when packing the exception itself raises")],
+    raises_post={"BaseException": [("C04-only-pack_exception-may-escape (every task exception, BaseException included, is caught and packed)", "pack_exception_raised")]},
+    ghost=[("entry", "", "task_raised = False\npack_exception_raised = False")],
+    note="the task is an opaque callable that may raise ANY BaseException subclass; pack_exception may re-raise (default_pack_exception does)",
+)
+
+CONTRACTS = [release_data, finish_task, submit, fire_tasks, no_deadlock, start_state, queue_result, nested_get, get_async, execute_task]
 
 
 def setup(eng):
@@ -357,6 +373,7 @@ def setup(eng):
     eng.funcs["batch_execute_tasks"] = FuncVal("batch_execute_tasks", "opaque")
     eng.callable_sorts["Fn"] = call_fn
     eng.callable_sorts["Opt<Fn>"] = call_fn
+    eng.callable_sorts["Val"] = call_task
     eng.funcs["config.get"] = FuncVal("config.get", "model", model_config_get)
     eng.funcs["flatten"] = FuncVal("flatten", "model", model_flatten)
     eng.funcs["Queue"] = FuncVal("Queue", "model", model_opaque(T.U("Queue"), "queue"))
@@ -441,6 +458,20 @@ def cm_exit(eng, st, kind):
     pass
 
 
+def call_task(eng, st, fv, node, want):
+    """task(data): an opaque user callable; it returns a value or raises any BaseException subclass."""
+    from vf.core import Outcome, fresh, fresh_name
+    for a in node.args:
+        eng.ev(a, st)
+    r = z3.Bool(fresh_name("task_raises"))
+    rs = st.copy()
+    rs.assume(r)
+    rs.env["task_raised"] = SV(z3.BoolVal(True), T.Bool)
+    eng.pending_raises.append(Outcome("raise", rs, fresh(T.U("Exc"), "exc"), "BaseException"))
+    st.assume(z3.Not(r))
+    return fresh(Val, "task_result")
+
+
 def call_fn(eng, st, fv, node, want):
     """A user-supplied callable (dumps/loads/get_id/callbacks): assumed not to touch scheduler
     state; its result is an opaque value."""
@@ -463,6 +494,15 @@ def call_fn(eng, st, fv, node, want):
         rs.assume(raised)
         eng.pending_raises.append(Outcome("raise", rs, None, "CallbackError"))
         st.assume(z3.Not(raised))
+    if name == "pack_exception":
+        from vf.core import Outcome
+        esc = z3.Bool(__import__("vf.core", fromlist=["fresh_name"]).fresh_name("pack_raises"))
+        rs = st.copy()
+        rs.assume(esc)
+        rs.env["pack_exception_raised"] = SV(z3.BoolVal(True), T.Bool)
+        eng.pending_raises.append(Outcome("raise", rs, None, "BaseException"))
+        st.assume(z3.Not(esc))
+        return fresh(Blob, "packed")
     if name == "loads":
         a = eng.ev(node.args[0], st)
         tt = T.Tup(Val, T.U("Opaque"))
